@@ -2,6 +2,7 @@ import CasbinV.Proto
 import CasbinV.Driver.Effect
 import CasbinV.Driver.Policy
 import CasbinV.Driver.Enforcer
+import CasbinV.Driver.EnforcerOrd
 import CasbinV.Driver.Matcher
 import CasbinV.Driver.Persist
 import CasbinV.Driver.Fast
@@ -25,6 +26,7 @@ def families : List (String × Family) := [
   ("effect", stateless Casbin.Driver.Effect.handle),
   ("policy", { σ := Casbin.Driver.Policy.St, init := {}, step := Casbin.Driver.Policy.stepR }),
   ("enf", { σ := Casbin.Driver.Enf.DSt, init := {}, step := Casbin.Driver.Enf.step }),
+  ("enfo", { σ := Casbin.Driver.EnfO.DStO, init := {}, step := Casbin.Driver.EnfO.step }),
   ("matcher", { σ := Casbin.Driver.Matcher.Table, init := [], step := Casbin.Driver.Matcher.step }),
   ("persist", { σ := Casbin.Driver.Persist.DState, init := {}, step := Casbin.Driver.Persist.handle }),
   ("fast", { σ := Option Casbin.Driver.Fast.St, init := none, step := Casbin.Driver.Fast.step }),
